@@ -29,6 +29,8 @@ func main() {
 	commands["render"] = cmdRender
 	commands["gen"] = cmdGen
 	commands["lex"] = cmdLex
+	commands["relayout"] = cmdRelayout
+	commands["outcome"] = cmdOutcome
 	f, ok := commands[os.Args[1]]
 	if !ok {
 		fatal("unknown command %s", os.Args[1])
